@@ -5,7 +5,8 @@
 #include "gen_types.h"
 #define TCAP 12
 enum tokkind { TK_STR = 1, TK_CHAR, TK_NUM };
-struct tokout { int kind[TCAP]; long val[TCAP]; int width[TCAP]; size_t n; int cur_width; char fill; _Bool is_dec; };
+struct tokout { int kind[TCAP]; long val[TCAP]; int width[TCAP]; size_t n; int cur_width; char fill; _Bool is_dec; _Bool hexnum[TCAP]; };
+_Bool g_hex_expected;      /* set by the harness of the HEX type only */
 static inline void tok_add(struct tokout* o, int kind, long val, int width) {
   __CPROVER_assert(o->n < TCAP, "model capacity: more output tokens than TCAP");
   if (o->n < TCAP) { o->kind[o->n] = kind; o->val[o->n] = val; o->width[o->n] = width; o->n = o->n + 1; }
@@ -13,10 +14,13 @@ static inline void tok_add(struct tokout* o, int kind, long val, int width) {
 static inline void out_str(struct tokout* o, const char* s) { tok_add(o, TK_STR, (long)(unsigned char)s[0] | ((long)(unsigned char)(s[0] ? s[1] : 0) << 8), 0); o->cur_width = 0; }
 static inline void out_char(struct tokout* o, char c) { tok_add(o, TK_CHAR, (unsigned char)c, 0); o->cur_width = 0; }
 static inline void out_dec(struct tokout* o) { o->is_dec = 1; }
+static inline void out_hex(struct tokout* o) { o->is_dec = 0; }
+static inline int isprint(int c) { return c >= 0x20 && c < 0x7f; }      /* C locale */
 static inline void out_fill(struct tokout* o, char c) { o->fill = c; }
 static inline void out_setw(struct tokout* o, int w) { o->cur_width = w; }
 static inline void out_num(struct tokout* o, long v) {
-  __CPROVER_assert(o->is_dec, "[C12] numbers are printed in decimal whatever was printed on the stream before");
+  if (o->n < TCAP) o->hexnum[o->n] = !o->is_dec;
+  __CPROVER_assert(o->is_dec || g_hex_expected, "[C12] numbers are printed in decimal whatever was printed on the stream before");
   __CPROVER_assert(o->cur_width == 0 || o->fill == '0', "[C12] padded numbers are zero-filled whatever was printed on the stream before");
   tok_add(o, TK_NUM, v, o->cur_width); o->cur_width = 0;
 }
@@ -175,3 +179,31 @@ void h_bda(void) { int oc = plain_date(&dtt_BDA, 4, 1); SEEN(oc, OC_BAD_DIGIT, "
 void h_bda3(void) { int oc = plain_date(&dtt_BDA_3, 3, 1); SEEN(oc, OC_BAD_DIGIT, "bad bcd") SEEN(oc, OC_BAD_RANGE, "bad date") SEEN(oc, OC_GOOD, "good date") }
 void h_hda(void) { int oc = plain_date(&dtt_HDA, 4, 0); SEEN(oc, OC_BAD_YEAR, "bad year") SEEN(oc, OC_BAD_RANGE, "bad date") SEEN(oc, OC_GOOD, "good date") }
 void h_hda3(void) { int oc = plain_date(&dtt_HDA_3, 3, 0); SEEN(oc, OC_BAD_YEAR, "bad year") SEEN(oc, OC_BAD_RANGE, "bad date") SEEN(oc, OC_GOOD, "good date") }
+
+/* character and hex strings (STR / NTS / HEX): length bytes in storage order (REV: reverse) */
+STT nondet_STT(void);
+#define SLEN 4
+void h_hexstr(void) {
+  STT t = nondet_STT(); SymbolString in = slave_with(SLEN); struct tokout o; out_init(&o); g_hex_expected = 1;
+  __CPROVER_assume(t.m_isHex);
+  result_t r = STT_readSymbols(&t, 0, SLEN, &in, 0, &o);
+  __CPROVER_assert(r == RESULT_OK && o.n == 2 * SLEN - 1, "[C05] a hex string is shown as one two-digit group per byte separated by blanks");
+  size_t k = nondet_size(); __CPROVER_assume(k < SLEN);
+  if (o.n == 2 * SLEN - 1) {
+    __CPROVER_assert(o.kind[2 * k] == TK_NUM && o.hexnum[2 * k] && o.width[2 * k] == 2 && o.val[2 * k] == (long)in.m_data.d[1 + ((t.m_flags & REV) ? SLEN - 1 - k : k)], "[C05] group k is byte k (reverse order for REV types) as two hex digits, zero filled");
+    if (k > 0) __CPROVER_assert(o.kind[2 * k - 1] == TK_CHAR && o.val[2 * k - 1] == ' ', "[C05] groups are separated by one blank");
+  }
+  CANARY("hex string");
+}
+void h_charstr(void) {
+  STT t = nondet_STT(); SymbolString in = slave_with(SLEN); struct tokout o; out_init(&o); g_hex_expected = 0;
+  __CPROVER_assume(!t.m_isHex && !(t.m_flags & REV));
+  result_t r = STT_readSymbols(&t, 0, SLEN, &in, 0, &o);
+  /* expected characters: up to the first NUL; control characters as the replacement, other non-printable ones as ? */
+  size_t n = 0; _Bool term = 0; long exp[SLEN];
+  for (size_t i = 0; i < SLEN; i++) { unsigned b = in.m_data.d[1 + i]; if (b == 0) term = 1; else if (!term) { exp[n] = b < 0x20 ? (long)(unsigned char)t.m_replacement : (b >= 0x7f ? (long)'?' : (long)b); n++; } }
+  __CPROVER_assert(r == RESULT_OK && o.n == n, "[C05] a character string is shown up to its NUL terminator, one character per byte");
+  size_t k = nondet_size(); __CPROVER_assume(k < SLEN);
+  if (k < n && o.n == n) { __CPROVER_assert(o.kind[k] == TK_CHAR && o.val[k] == exp[k], "[C05] character k is byte k (control characters as the replacement character, other non-printable bytes as ?)"); }
+  if (n == 2 && term) { CANARY("terminated string"); }
+}
